@@ -29,6 +29,7 @@ type Env struct {
 	guard   string
 	fvBind  map[string]ssa.Value // call of a closure: captured-variable name -> bound value (closurefv.go)
 	ownFn   bool                 // clause of the function under verification (captured variables resolvable)
+	bound   map[string]bool      // names bound by quantifiers / let / macro parameters (they shadow Go locals)
 	from    *ssa.BasicBlock      // effects.go: `loop k ensures`: locals are resolved at the end of this block
 	prevOf  *headerSnap          // effects.go: state for prev()
 }
@@ -55,6 +56,10 @@ func (e *Env) with(name string, v SV) *Env {
 		n.vars[k] = x
 	}
 	n.vars[name] = v
+	n.bound = map[string]bool{name: true}
+	for k := range e.bound {
+		n.bound[k] = true
+	}
 	return &n
 }
 
@@ -264,6 +269,14 @@ type mapSV struct {
 
 func (e *Env) ident(name string) SV {
 	vc := e.vc
+	if e.local && e.header != nil && e.bound[name] == false {
+		// in a loop invariant a name that is both a parameter and a reassigned local means the local's current value
+		if _, isParam := vc.params[name]; isParam {
+			if v := vc.resolveLocal(name, e.header, e.st); v != nil {
+				return v
+			}
+		}
+	}
 	if v, ok := e.vars[name]; ok {
 		return v
 	}
@@ -582,31 +595,47 @@ func (e *Env) nilEq(v SV) string {
 }
 
 func (e *Env) quant(n EQuant) SV {
+	// A chain of like quantifiers (forall i .. :: forall k .. :: body) becomes ONE SMT quantifier with several
+	// bound variables (w-c09): solvers infer usable triggers for a flat prefix, not for nested binders.
 	vc := e.vc
-	vc.nfresh++
-	bv := fmt.Sprintf("%s!%d", sanitize(n.Var), vc.nfresh)
-	sort := "Int"
-	if n.Sort != "" {
-		sort = n.Sort
+	cur := e
+	var binders, rngs []string
+	node := n
+	for {
+		vc.nfresh++
+		bv := fmt.Sprintf("%s!%d", sanitize(node.Var), vc.nfresh)
+		sort := "Int"
+		if node.Sort != "" {
+			sort = node.Sort
+		}
+		if node.Lo != nil {
+			lo, hi := vc.evalInt(cur, node.Lo), vc.evalInt(cur, node.Hi)
+			rngs = append(rngs, app("<=", lo, bv), app("<", bv, hi))
+		}
+		cur = cur.with(node.Var, Sc{sort, bv})
+		binders = append(binders, "("+bv+" "+sort+")")
+		nx, ok := node.Body.(EQuant)
+		if !ok || nx.All != n.All {
+			break
+		}
+		node = nx
 	}
-	inner := e.with(n.Var, Sc{sort, bv})
 	vc.noFacts++
-	body := inner.boolOf(n.Body)
+	body := cur.boolOf(node.Body)
 	vc.noFacts--
 	q := "forall"
 	if !n.All {
 		q = "exists"
 	}
-	if n.Lo != nil {
-		lo, hi := vc.evalInt(e, n.Lo), vc.evalInt(e, n.Hi)
-		rng := sAnd(app("<=", lo, bv), app("<", bv, hi))
+	if len(rngs) > 0 {
+		rng := sAnd(rngs...)
 		if n.All {
 			body = sImp(rng, body)
 		} else {
 			body = sAnd(rng, body)
 		}
 	}
-	return Sc{"Bool", fmt.Sprintf("(%s ((%s %s)) %s)", q, bv, sort, body)}
+	return Sc{"Bool", fmt.Sprintf("(%s (%s) %s)", q, strings.Join(binders, " "), body)}
 }
 
 func (e *Env) call(n ECall) SV {
@@ -751,6 +780,12 @@ func (e *Env) call(n ECall) SV {
 			if sc, isVal := v.(Sc); isVal && sc.S == "Val" {
 				return sc
 			}
+			// box(p) for a pointer to a named struct (pointer receivers such as *rel.GenericTuple)
+			if pt, isPt := v.(Pt); isPt && pt.Kind == "heap" && len(pt.Path) == 0 && pt.Elem != nil {
+				if _, named := pt.Elem.(*types.Named); named {
+					return vc.makeInterface(types.NewPointer(pt.Elem), Sc{"Int", pt.Ref})
+				}
+			}
 			e.fail("box() needs a value of a named struct type")
 		}
 		return vc.makeInterface(st.Typ, st)
@@ -786,8 +821,13 @@ func (e *Env) call(n ECall) SV {
 		for k, v := range e.vars {
 			inner.vars[k] = v
 		}
+		inner.bound = map[string]bool{}
+		for k := range e.bound {
+			inner.bound[k] = true
+		}
 		for i, p := range m.Params {
 			inner.vars[p] = e.eval(n.Args[i])
+			inner.bound[p] = true
 		}
 		return inner.eval(m.Body)
 	}
